@@ -54,9 +54,14 @@ Definition zv (neg : bool) (limbs : list int) : Z :=
   if neg then - m else m.
 Arguments zv neg limbs%uint63.
 
+(** The received bytes are stored as plain bytes: the case printer writes them in the
+    compact form, [Ret (expand segs) ..], and the decoding happens when the batch is
+    evaluated.  The case type and the two checks therefore do not mention the primitive
+    63-bit integers (theorems about [model_check]/[spec_check] are closed under the
+    global context). *)
 Inductive obs :=
 | Panic
-| Ret (snk : list seg) (flushes : list Z) (same_as_to_string : bool) (read_back : option bool)
+| Ret (snk : list byte) (flushes : list Z) (same_as_to_string : bool) (read_back : option bool)
 | TooLong (n : Z).  (* the sink received n bytes, too irregular to embed in a case term (never
                        happens on a correct writer: the generator makes long outputs from runs only);
                        only the length is compared *)
@@ -68,7 +73,7 @@ Definition zl_eqb := leqb Z.eqb.
 Definition model_check (c : case) : bool :=
   match run (c_buf c) (c_dbg c) (c_ops c), c_obs c with
   | None, Panic => true
-  | Some (snk, fl), Ret snk' fl' _ _ => zl_eqb snk (expand snk') && zl_eqb fl fl'
+  | Some (snk, fl), Ret snk' fl' _ _ => zl_eqb snk snk' && zl_eqb fl fl'
   | Some (snk, _), TooLong n => zlen snk =? n
   | _, _ => false
   end.
@@ -146,12 +151,36 @@ Definition spec_check (c : case) : bool :=
   else match c_obs c with
        | Panic => false
        | Ret snk fl same rb =>
-           zl_eqb (expand snk) (concat (map sp_op (c_ops c)))
+           zl_eqb snk (concat (map sp_op (c_ops c)))
            && zl_eqb fl (flush_points (c_ops c) 0)
            && same
            && match rb with Some false => false | _ => true end
        | TooLong n => zlen (concat (map sp_op (c_ops c))) =? n
        end.
+
+(** ---------- side condition of [model_check c = true -> spec_check c = true] ----------
+    (theorem [c09_model_check_spec_check], proved in ProofsCorr.v)
+
+    [spec_check] looks at four things: the received bytes, the sink sizes at the explicit
+    flushes, and two verdicts the executor computes itself on the Rust side: "the bytes
+    equal the concatenation of the standard library's [to_string] renderings" and "[Reader]
+    read the written integers back".  The model predicts the first two ([model_check]
+    compares exactly these); the two verdicts are observations no model of the writer can
+    predict, so they stay hypotheses: *)
+Definition executor_verdicts (o : obs) : bool :=
+  match o with
+  | Ret _ _ same rb => same && match rb with Some false => false | _ => true end
+  | Panic | TooLong _ => true
+  end.
+(** ... together with the capacity hypothesis of the property theorems (a u128 has up to
+    39 digits and is copied as one piece: below 39 the model itself panics on such a
+    script, and a panic observed on a script of the property's quantifier is a
+    [spec_check] failure).  The real crate has BUF_SIZE = 65536.
+    Nothing is asked of the script: scripts outside the property's quantifier
+    ([in_scope_op]: integers in range, ASCII, arity 2..8, non-empty out!) make
+    [spec_check] vacuously true, and for the others [in_scope_op] implies [Spec.wf_op]. *)
+Definition in_scope (c : case) : bool :=
+  (39 <=? c_buf c) && executor_verdicts (c_obs c).
 
 (** for replay files: what the model delivers, with runs compressed again *)
 Fixpoint compress (l : list byte) (cur : byte) (k : N) : list (byte * N) :=
